@@ -80,7 +80,9 @@ Definition cstep (maxage : Z) (swr : bool) (s : cstate) (a : caction) : cstate :
           wake maxage swr (finish (mkCo e (co_now s) None (co_waiters s) (co_nfetch s) ver (co_done s) (co_maxin s)) i out) in
       let as_new :=
           let v := co_version s + 1 in
-          released (Some (v, t0)) v (mkOut 200 v true (if cond then KRevalidated else KMiss)) in   (* the harness stamps a new entry with the time its writer was created *)
+          (* a fill is stamped with the time its writer was created (the harness's clock injection), a
+             revalidation that stored a new body with the time it was closed (Revalidated) *)
+          released (Some (v, if cond then co_now s else t0)) v (mkOut 200 v true (if cond then KRevalidated else KMiss)) in
       match how with
       | ANew => as_new
       | A304 =>
